@@ -4,7 +4,8 @@ import json, os, shutil, sys
 prop, k, dest = sys.argv[1:4]
 rest = " ".join(sys.argv[4:]).split(" -- ")
 cmd, needs, detected = rest[0], rest[1], rest[2]
-src = "/tmp/seed/%s_out/%s" % (prop, k)
+src = "%s/%s_out/%s" % (os.environ.get("SEED_ROOT", "/tmp/seed"), prop, k)
+k = os.environ.get("SEED_ID", k)  # id under /verif/seeded when it differs from the source index
 dst = "/verif/seeded/%s-%s" % (prop, k)
 os.makedirs(dst, exist_ok=True)
 for f in os.listdir(src):
